@@ -12,16 +12,24 @@ git checkout -q -- . ; git clean -fdq
 demo=$(ls $out/*_test.go | head -1)
 pkgdir=$(grep -oE "x/ccv/[a-z_/]+|tests/[a-z_/]+|app/[a-z_/]+" $out/DEMO.txt | head -1)
 [ -z "$pkgdir" ] && pkgdir=x/ccv/provider/keeper
-testname=$(grep -oE "func (Test[A-Za-z0-9_]+)" $demo | head -1 | sed 's/func //')
+pkgdir=${pkgdir%/}
+while [ -n "$pkgdir" ] && [ ! -d "$wt/$pkgdir" ]; do pkgdir=$(dirname $pkgdir); done
+testname=$(grep -oE "^func (Test[A-Za-z0-9_]+)" $demo | head -1 | sed 's/func //')
+runargs="-run ^$testname\$"
+if [ -z "$testname" ]; then
+  # testify suite method: func (s *CCVTestSuite) TestX()
+  testname=$(grep -oE "^func \([a-z]+ \*CCVTestSuite\) (Test[A-Za-z0-9_]+)" $demo | head -1 | sed 's/.* //')
+  runargs="-run TestCCVTestSuite\$ -testify.m ^$testname\$"
+fi
 echo "demo=$demo pkg=$pkgdir test=$testname"
 cp $demo $wt/$pkgdir/
 echo "--- demo WITHOUT change (must pass)"
-go test -vet=off -count=1 -run "^$testname\$" ./$pkgdir/ 2>&1 | tail -3
+go test -vet=off -count=1 -timeout 60m $runargs ./$pkgdir/ 2>&1 | tail -3
 git apply $out/patch.diff || { echo "PATCH DOES NOT APPLY"; exit 2; }
 echo "--- build WITH change"
 go build ./... && echo build ok
 echo "--- demo WITH change (must fail)"
-go test -vet=off -count=1 -run "^$testname\$" ./$pkgdir/ 2>&1 | tail -3
+go test -vet=off -count=1 -timeout 60m $runargs ./$pkgdir/ 2>&1 | tail -3
 rm -f $wt/$pkgdir/$(basename $demo)
 echo "--- existing tests WITH change"
 go test -vet=off -count=1 ./x/... ./app/... 2>&1 | grep -v "no test files" | grep -v "^ok" | tail -5
